@@ -16,6 +16,8 @@ def _b(v):
 
 def make_comp(spec):
     import openmdao.api as om
+    if spec.get('par'):
+        return make_param_comp(spec)
     na, nb = spec['sizes']
     n = na + nb
     Q = np.asarray(spec['Q'], float).reshape(n, n)
@@ -56,11 +58,78 @@ def make_comp(spec):
     return QPComp()
 
 
+def make_param_comp(spec):
+    """Component of a spec with a parameter (omv/ref/qphist.py):
+    f = (1 + q1 p) 1/2 z'Qz + (c + p c1)'z,  g = (A + p B) z + b + p b1,  p a (non design) input.
+    The data sit in `self.data` and can be replaced (`set_data`) before a re-setup with equal sizes."""
+    import openmdao.api as om
+    na, nb = spec['sizes']
+    n = na + nb
+
+    class QPParamComp(om.ExplicitComponent):
+        def set_data(self, sp):
+            par = sp['par']
+            self.data = {'Q': np.asarray(sp['Q'], float).reshape(n, n), 'c': np.asarray(sp['c'], float),
+                         'A': np.asarray(sp['A'], float).reshape(-1, n), 'b': np.asarray(sp['b'], float),
+                         'B': np.asarray(par['B'], float).reshape(-1, n), 'c1': np.asarray(par['c1'], float),
+                         'b1': np.asarray(par['b1'], float), 'q1': float(par['q1'])}
+
+        def setup(self):
+            self.evals = []
+            m = self.data['A'].shape[0]
+            self.add_input('xa', np.zeros(na), units=spec['xunits'][0])
+            if nb:
+                self.add_input('xb', np.zeros(nb), units=spec['xunits'][1])
+            self.add_input('p', float(spec['par']['p']))
+            self.add_output('f', 0.0, units=spec['funits'])
+            self.add_output('g', np.zeros(m), units=spec['gunits'])
+            self.declare_partials('*', '*')
+
+        def _z(self, inputs):
+            return np.concatenate([inputs['xa'], inputs['xb']]) if nb else np.array(inputs['xa'])
+
+        def compute(self, inputs, outputs):
+            d = self.data
+            z = self._z(inputs)
+            p = inputs['p'][0]
+            if z.dtype.kind != 'c':
+                self.evals.append(z.copy())
+            outputs['f'] = (1.0 + d['q1'] * p) * 0.5 * (z @ d['Q'] @ z) + (d['c'] + p * d['c1']) @ z
+            outputs['g'] = (d['A'] + p * d['B']) @ z + d['b'] + p * d['b1']
+
+        def compute_partials(self, inputs, J):
+            d = self.data
+            z = self._z(inputs)
+            p = inputs['p'][0]
+            gf = (1.0 + d['q1'] * p) * (d['Q'] @ z) + d['c'] + p * d['c1']
+            Ae = d['A'] + p * d['B']
+            J['f', 'xa'] = gf[:na].reshape(1, na)
+            J['g', 'xa'] = Ae[:, :na]
+            if nb:
+                J['f', 'xb'] = gf[na:].reshape(1, nb)
+                J['g', 'xb'] = Ae[:, na:]
+            J['f', 'p'] = d['q1'] * 0.5 * (z @ d['Q'] @ z) + d['c1'] @ z
+            J['g', 'p'] = (d['B'] @ z + d['b1']).reshape(-1, 1)
+
+    comp = QPParamComp()
+    comp.set_data(spec)
+    return comp
+
+
+def set_options_kwargs(sc):
+    """kwargs that make set_design_var_options / set_constraint_options / set_objective_options replace the
+    scaling by `sc` (naming one pair clears the other; both None = no scaling)."""
+    kw = af.scaling_kwargs(sc)
+    return kw if kw else {'scaler': None, 'adder': None}
+
+
 def build(spec, driver=None, setup=True, recorder=None):
     """-> (problem, comp).  x0 is set; final_setup is NOT called."""
     import openmdao.api as om
     p = om.Problem()
     comp = make_comp(spec)
+    if spec.get('par') and spec['par'].get('ivc'):
+        p.model.add_subsystem('ivc', om.IndepVarComp('p', float(spec['par']['p'])), promotes=['*'])
     p.model.add_subsystem('qp', comp, promotes=['*'])
     for d in spec['dvs']:
         p.model.add_design_var(d['name'], lower=_b(d.get('lower')), upper=_b(d.get('upper')),
@@ -82,6 +151,8 @@ def build(spec, driver=None, setup=True, recorder=None):
     if setup:
         p.setup()
         set_z(p, spec, spec['x0'])
+        if spec.get('par'):
+            p.set_val('p', float(spec['par']['p']))
     return p, comp
 
 
